@@ -293,6 +293,16 @@ def run(ck: Check, prog: Program) -> None:
     if not ok:
         ck.finding('IS-NOTIF-DEF', bn.qualname, 'batch notification definition', bn.module.rel, bn.node.lineno,
                    'a batch expects no reply only if ALL elements are notifications; with `any` the responses of mixed batches are silently dropped')
+    # ---- BATCH-RESULT-STORAGE-ORDER ---------------------------------------------------------------------
+    from .c08 import result_iteration
+    it_attr, reorder = result_iteration(prog)
+    brf = prog.func(V20 + '.BatchResponse.result')
+    ck.functions.add(brf.qualname)
+    ck.ob('RESULT-ATTRIB', 'BatchResponse.result reads the stored responses in storage order (no sort / reverse / set)', it_attr is not None and not reorder)
+    if reorder:
+        ck.finding('RESULT-ATTRIB', brf.qualname, f'batch results re-ordered by {reorder[0]}', brf.module.rel, reorder[1],
+                   f'BatchResponse.result iterates `{reorder[2]}`: the values a batch returns are permuted relative to the calls '
+                   f'(e.g. with a non-monotonic id generator), so the caller does not obtain the value of the function it called')
     # ---- IDGEN-TYPE -------------------------------------------------------------------------------------
     gm = prog.modules.get(GENS)
     if gm is None:
